@@ -232,6 +232,10 @@ def h_history(ctx, n, prefix=()):
                 possible.append("peer-first-message")
                 if len(confirmed - consumed) > 1:
                     possible.append("peer-first-message-highest-key")
+            if disp.state == "up" and authed and (offered_ever - confirmed - consumed) & _stored(store):
+                # the server has the keys of an upload from the moment the stanza arrives, whether or not its answer reaches the client;
+                # the contact's message can only be delivered on an authenticated connection
+                possible.append("peer-first-message-unconfirmed-key")
             if disp.state == "up":
                 possible.append("connection-loss")
             possible += ["restart", "stop"]
@@ -263,9 +267,13 @@ def h_history(ctx, n, prefix=()):
                 elif ev == "upload-error":
                     out0 = outstanding.pop(0)
                     net.receive(N("iq", {"id": out0[0], "type": "error", "from": "s.whatsapp.net"}, [N("error", {"code": "500", "text": "internal"})]))
-                elif ev in ("peer-first-message", "peer-first-message-highest-key"):
+                elif ev in ("peer-first-message", "peer-first-message-highest-key", "peer-first-message-unconfirmed-key"):
                     # which of the offered keys the server hands to the contact is the server's choice: oldest or newest
-                    kkey = sorted(confirmed - consumed)[0 if ev == "peer-first-message" else -1]
+                    if ev == "peer-first-message-unconfirmed-key":
+                        kkey = sorted((offered_ever - confirmed - consumed) & _stored(store))[1:2] or sorted((offered_ever - confirmed - consumed) & _stored(store))[:1]
+                        kkey = kkey[0]
+                    else:
+                        kkey = sorted(confirmed - consumed)[0 if ev == "peer-first-message" else -1]
                     kid = kkey[0]
                     _peer_first_message(d, mgr, store, kid, step)
                     consumed.add(kkey)
@@ -288,7 +296,7 @@ def h_history(ctx, n, prefix=()):
                 if disp.state != "up":
                     outstanding = []
             # a result reply that the layer turns into a reconnect (passive login finished)
-            if ev in ("peer-first-message", "peer-first-message-highest-key"):
+            if ev in ("peer-first-message", "peer-first-message-highest-key", "peer-first-message-unconfirmed-key"):
                 obs.append((tag + ": a consumed one-time key is gone from the store", kkey not in _stored(store)))
                 obs.append((tag + ": ... also for a process started now (committed state)", kkey not in _committed_keys(d)))
             if ev in ("upload-result", "upload-result-newest"):
@@ -299,7 +307,7 @@ def h_history(ctx, n, prefix=()):
                     authed = False
             if ev == "upload-error":
                 obs.append((tag + ": rejection is reported", raised is not None))
-                obs.append((tag + ": rejected keys stay pending", set(out0[1]) <= set(_K(r) for r in store.preKeyStore.loadUnsentPendingPreKeys())))
+                obs.append((tag + ": rejected keys stay pending (unless used up meanwhile)", set(out0[1]) - consumed <= set(_K(r) for r in store.preKeyStore.loadUnsentPendingPreKeys())))
                 raised = None
             if raised is not None:
                 obs.append((tag + ": no exception (%s: %s)" % (type(raised).__name__, str(raised)[:80]), False))
@@ -313,7 +321,7 @@ def h_history(ctx, n, prefix=()):
                 live = dict((i, k) for (i, k) in (offered_ever - consumed) if (i, k) not in pk)
                 obs.append((tag + ": an id offered for a new key is not the id of another offered key that is still waiting to be used", not any(i in live for i, _ in pk)))
                 obs.append((tag + ": every offered id maps to a key stored locally", all(store.containsPreKey(i) for i in p["ids"]) and pk <= _stored(store)))
-                obs.append((tag + ": offered public keys are the stored ones", all(bytes(p["keys"][i]) == store.loadPreKey(i).getKeyPair().getPublicKey().serialize()[1:] for i in p["ids"])))
+                obs.append((tag + ": offered public keys are the stored ones", all(bytes(p["keys"][i]) == store.loadPreKey(i).getKeyPair().getPublicKey().serialize()[1:] for i in p["ids"] if store.containsPreKey(i))))
                 obs.append((tag + ": ids are 3-byte big-endian, keys 32 bytes", all(l == 3 for l in p["id_lens"]) and all(len(v) == 32 for v in p["keys"].values())))
                 obs.append((tag + ": carries the identity key", bytes(p["identity"]) == mgr.identity.getPublicKey().serialize()[1:]))
                 obs.append((tag + ": carries the registration id", int.from_bytes(p["registration"], "big") == mgr.registration_id))
